@@ -332,6 +332,7 @@ type bench struct {
 	p       *plug
 	rec     *inproc.Recorder
 	stopped bool
+	twice   bool // Stop is called from two goroutines at once
 	stopErr error
 	stopDur time.Duration
 }
@@ -386,7 +387,19 @@ func (bn *bench) stop(timeout time.Duration) {
 	t0 := time.Now()
 	// Srv.Stop directly (not inproc's Broker.Stop, which also forgets the broker): hook events after Stop are evidence
 	ctx, cancel := context.WithTimeout(context.Background(), timeout)
+	second := make(chan error, 1)
+	if bn.twice {
+		// a second, concurrent Stop: stopOnce makes it wait for the first and do nothing (Unload / OnStop exactly once)
+		go func() { second <- bn.b.Srv.Stop(ctx) }()
+	}
 	bn.stopErr = bn.b.Srv.Stop(ctx)
+	if bn.twice {
+		select {
+		case <-second:
+		case <-time.After(timeout + time.Second):
+			div("second-stop-call-hangs", "a second concurrent call of Stop did not return", nil)
+		}
+	}
 	cancel()
 	bn.stopDur = time.Since(t0)
 	bn.rec.Log(inproc.Event{"e": "stopret", "err": bn.stopErr != nil})
@@ -1116,6 +1129,7 @@ func (s *stormClient) run(stopping *int32, wg *sync.WaitGroup) {
 
 func runStorm(sc *Scenario) {
 	bn := startBroker(nil)
+	bn.twice = sc.Seed%2 == 1
 	rng := rand.New(rand.NewSource(sc.Seed))
 	var stopping int32
 	var wg, awg sync.WaitGroup
